@@ -236,6 +236,7 @@ class World:
                 if nm not in m.globals and isinstance(s.value, ast.Call):
                     # a module-level object the loader cannot evaluate (default scorer, logger, ...)
                     m.globals[nm] = Tok("%s.%s" % (self.short(m.name), nm))
+                    m.globals[nm].module_global = True
         if m.name == "ctparse.time.rules":
             # `from ..types import pod_hours` etc. are handled by ImportFrom; rule-decorated functions
             # are bound to the *wrapper* at run time (see World.rule_wrapper)
@@ -300,6 +301,14 @@ class World:
         return None
 
     def _ext_module(self, name):
+        if name in ("bz2", "pickle", "os", "logging", "json"):
+            m = ModVal(name)
+            m.opaque = True
+            if name == "os":
+                p = ModVal("os.path")
+                p.opaque = True
+                m.attrs["path"] = p
+            return m
         if name == "math":
             return ModVal("math", {"log": Builtin("log", _log), "exp": Builtin("exp", _exp)})
         m = ModVal(name)
@@ -669,6 +678,13 @@ class World:
 
         @reg("next")
         def _next(it, a, k):
+            xs = a[0]
+            if isinstance(xs, list):          # a generator, modelled as the list of its values
+                if xs:
+                    return xs.pop(0)
+                if len(a) > 1:
+                    return a[1]
+                raise PyRaise("StopIteration", "")
             raise Unsupported("next()")
 
         for n in ("ValueError", "TypeError", "KeyError", "IndexError", "Exception", "StopIteration",
